@@ -1,10 +1,13 @@
 INIT Init
 NEXT Next
 CONSTANTS
-  Kinds = {"bool", "int", "list"}
+  Kinds = {"bool", "flag", "int", "list", "paths", "files"}
   MaxFiles = 3
   Rich = TRUE
   WithBad = FALSE
+  Routes = {"inst", "kwargs", "argv"}
+  Layouts = {"flat", "nested"}
+  Slim = FALSE
 INVARIANT LayeringFollowsDocs
-INVARIANT EmitDone
 CHECK_DEADLOCK FALSE
+INVARIANT EmitDone
